@@ -4,7 +4,7 @@ CONSTANTS
   NKeys = 2
   WVals = {0, 1, 2}
   UVals = {0, 1}
-  InitRows <- InitRowsA
+  InitRows <- InitRowsC
   StmtW = {1, 2}
   MaxBranches = 1
   MaxStmts = 1
